@@ -17,7 +17,7 @@ import (
 	"github.com/trustbloc/sidetree-core-go/pkg/docutil"
 )
 
-const jsonPatchAddTemplate = `{ "op": "add", "path": "/%s", "value": %s }`
+const jsonPatchAddTemplate = `{ "op": "add", "path": %s, "value": %s }`
 
 // Action defines action of document patch.
 type Action string
@@ -119,7 +119,13 @@ func PatchesFromDocument(doc string) ([]Patch, error) {
 		case document.AlsoKnownAs:
 			docPatch, err = NewAddAlsoKnownAs(string(jsonBytes))
 		default:
-			jsonPatches = append(jsonPatches, fmt.Sprintf(jsonPatchAddTemplate, key, string(jsonBytes)))
+			// the member name is JSON-encoded so that quotes, backslashes and control characters survive
+			pathBytes, e := json.Marshal("/" + key)
+			if e != nil {
+				return nil, e
+			}
+
+			jsonPatches = append(jsonPatches, fmt.Sprintf(jsonPatchAddTemplate, string(pathBytes), string(jsonBytes)))
 		}
 
 		if err != nil {
